@@ -1,6 +1,7 @@
 package props
 
 import (
+	"math"
 	"strings"
 	"testing"
 
@@ -160,6 +161,13 @@ func genC20(t *rapid.T) C20Case {
 			c.Exp = model.MinExp - e + int64(rapid.IntRange(-3, 3).Draw(t, "exp"))
 		default:
 			c.Exp = rapid.Int64Range(-1<<34, 1<<34).Draw(t, "exp")
+			if rapid.Bool().Draw(t, "exp64") {
+				// the whole int64 range and its ends (the sum of exponents is formed in 64 bits)
+				c.Exp = rapid.SampledFrom([]int64{math.MaxInt64, math.MinInt64, math.MaxInt64 - 1, math.MinInt64 + 1, math.MaxInt64 - (1 << 31), math.MinInt64 + (1 << 31), 1 << 62, -1 << 62, 1<<62 + 1, 1 << 40, -1 << 40}).Draw(t, "expedge")
+				if rapid.Bool().Draw(t, "exprand") {
+					c.Exp = rapid.Int64().Draw(t, "exp64v")
+				}
+			}
 		}
 		c.P = uint(rapid.IntRange(0, 50).Draw(t, "p"))
 		c.Z = genRecvPrev(t, c.P, c.M)
@@ -365,7 +373,13 @@ func checkC20(c C20Case, o *h.Obs) *h.Fail {
 			return nil
 		}
 		ev := mv
-		ev.Exp += c.Exp
+		off := c.Exp // the model's exponents are int64 too: far outside the range the outcome is the same
+		if off > 1<<40 {
+			off = 1 << 40
+		} else if off < -1<<40 {
+			off = -1 << 40
+		}
+		ev.Exp += off
 		want, acc := model.Round(model.X{Val: ev}, uint64(before.Prec), model.Mode(before.Mode))
 		inside := ev.Exp >= model.MinExp && ev.Exp <= model.MaxExp
 		if d := ev.Exp - model.MaxExp; d >= -3 && d <= 3 {
@@ -388,7 +402,7 @@ func checkC20(c C20Case, o *h.Obs) *h.Fail {
 	return nil
 }
 
-const ruleC20 = "rapid-generated cases of four kinds. (bits) little-endian word slices of length 0..60 (quick) / 0..1000 (thorough), words < 10^19 from the pattern set, with leading zero words, low zero words, all-zero, unnormalised top word; exponents from every class incl. MaxExp/MinExp +- 40 (+ slice length), +-2^63 and neighbours, +-2^62, uniform int64; receiver precision 0, smaller than the slice's digits, or ample; six modes; receivers with previous contents. Oracle: +0.mant x 10^exp rounded once to the receiver's precision with accuracy, zero for an all-zero slice, range rule; BitsExp read back denotes the value. (own) x.SetBitsExp(x.BitsExp()) with a new exponent. (mantexp) all Decimals: x == mant x 10^exp with 0.1 <= |mant| < 1, attributes copied, specials, mant == x, SetMantExp(mant, exp) restores value and attributes. (setmantexp) any finite/special mant, offsets landing 0-3 steps inside/outside [MinExp, MaxExp] and up to +-2^34: +-0 / +-Inf exactly when the exponent sum leaves the range, accuracy, attributes of mant. Non-trivial = slice needing normalisation or rounding, exponent within 40 of a range end or beyond, SetMantExp landing within 3 of a range end."
+const ruleC20 = "rapid-generated cases of four kinds. (bits) little-endian word slices of length 0..60 (quick) / 0..1000 (thorough), words < 10^19 from the pattern set, with leading zero words, low zero words, all-zero, unnormalised top word; exponents from every class incl. MaxExp/MinExp +- 40 (+ slice length), +-2^63 and neighbours, +-2^62, uniform int64; receiver precision 0, smaller than the slice's digits, or ample; six modes; receivers with previous contents. Oracle: +0.mant x 10^exp rounded once to the receiver's precision with accuracy, zero for an all-zero slice, range rule; BitsExp read back denotes the value. (own) x.SetBitsExp(x.BitsExp()) with a new exponent. (mantexp) all Decimals: x == mant x 10^exp with 0.1 <= |mant| < 1, attributes copied, specials, mant == x, SetMantExp(mant, exp) restores value and attributes. (setmantexp) any finite/special mant, offsets landing 0-3 steps inside/outside [MinExp, MaxExp], up to +-2^34, and over the whole int64 range with its ends (MaxInt64, MinInt64, +-2^62, ...): +-0 / +-Inf exactly when the exponent sum leaves the range, accuracy, attributes of mant. Non-trivial = slice needing normalisation or rounding, exponent within 40 of a range end or beyond, SetMantExp landing within 3 of a range end."
 
 var propC20 = &h.Prop[C20Case]{ID: "C20", Rule: ruleC20, Gen: genC20, Check: checkC20, Matchers: map[string]func(C20Case) bool{}}
 
@@ -422,5 +436,28 @@ func TestC20Grid(t *testing.T) {
 		h.ReportGridFail(t, "C20", h.Failf("value", "SetBitsExp([7, 0 x %d], MinExp+19L-3) = %v, want +0 (Below)", L-1, got), mustJSON(c))
 	}
 	h.RecordGrid("C20", o, c)
-	h.AddExtra("C20", "giant_slice_cases", 2)
+	if f := c20MaxPrecSlice(); f != nil {
+		h.ReportGridFail(t, "C20", f, mustJSON(c))
+	}
+	h.AddExtra("C20", "giant_slice_cases", 3)
+}
+
+// TestC20GridMaxPrec (run with the grid): a slice with more digits than MaxPrec (226 050 911 words, 1.8 GB of
+// mostly untouched zero pages) into a precision-0 receiver: the precision must saturate at MaxPrec (not wrap
+// around 2^32) and the 14 digits beyond it must be rounded away. Checked on the words themselves.
+func c20MaxPrecSlice() *h.Fail {
+	const L = 226050911 // 19*L = MaxPrec + 14
+	mant := make([]decimal.Word, L)
+	mant[L-1] = 1234567890123456789
+	mant[0] = 4200055555555555555 // kept digits 42000, dropped 55555555555555 (round up under ToNearestEven)
+	z := new(decimal.Decimal)
+	z.SetBitsExp(mant, 7)
+	if z.Prec() != model.MaxPrec {
+		return h.Failf("prec", "SetBitsExp of %d words (%d digits) into a precision-0 receiver: precision %d, want MaxPrec %d", L, uint64(L)*19, z.Prec(), uint64(model.MaxPrec))
+	}
+	got, e := z.BitsExp()
+	if len(got) != L || e != 7 || uint64(got[L-1]) != 1234567890123456789 || uint64(got[0]) != 4200100000000000000 || z.Acc() != decimal.Above || z.MinPrec() != model.MaxPrec {
+		return h.Failf("value", "SetBitsExp of %d words into a precision-0 receiver: %d words, exponent %d, top word %d, lowest word %d (want 4200100000000000000), accuracy %v, MinPrec %d", L, len(got), e, got[len(got)-1], got[0], z.Acc(), z.MinPrec())
+	}
+	return nil
 }
